@@ -55,12 +55,12 @@ def f64Of : CExpr → Rat
   | .mul a b => rnd53 (f64Of a * f64Of b)
   | .div a b => rnd53 (f64Of a / f64Of b)
 
-def lookup (t f : KU) : List (KU × KU × CExpr) → Option CExpr
+def lookupRow (f : KU) : List (KU × CExpr) → Option CExpr
   | [] => none
-  | (t', f', e) :: r => if t' = t ∧ f' = f then some e else lookup t f r
+  | (f', e) :: r => if f'.idx == f.idx then some e else lookupRow f r
 
 /-- `UNIT_CONVERSION_TABLE.get(to)?.get(from)` -/
-def tableGet (to frm : KU) : Option CExpr := lookup to frm tableEntries
+def tableGet (to frm : KU) : Option CExpr := lookupRow frm (tableRow to)
 
 def factorSym (to frm : KU) : Option Sym := (tableGet to frm).map symOf
 def factorF64 (to frm : KU) : Option Rat := (tableGet to frm).map f64Of
@@ -75,26 +75,62 @@ inductive Dim where
   | length | angle | time | frequency | resolution
   deriving DecidableEq, Repr
 
-def cssSize : KU → Option (Dim × Sym)
-  | .In => some (.length, ⟨1, 0⟩)
-  | .Px => some (.length, ⟨1 / 96, 0⟩)
-  | .Cm => some (.length, ⟨100 / 254, 0⟩)
-  | .Mm => some (.length, ⟨10 / 254, 0⟩)
-  | .Q => some (.length, ⟨10 / 1016, 0⟩)
-  | .Pt => some (.length, ⟨1 / 72, 0⟩)
-  | .Pc => some (.length, ⟨1 / 6, 0⟩)
-  | .Turn => some (.angle, ⟨1, 0⟩)
-  | .Deg => some (.angle, ⟨1 / 360, 0⟩)
-  | .Grad => some (.angle, ⟨1 / 400, 0⟩)
-  | .Rad => some (.angle, ⟨1 / 2, -1⟩)
-  | .S => some (.time, ⟨1, 0⟩)
-  | .Ms => some (.time, ⟨1 / 1000, 0⟩)
-  | .Khz => some (.frequency, ⟨1, 0⟩)
-  | .Hz => some (.frequency, ⟨1 / 1000, 0⟩)
-  | .Dpi => some (.resolution, ⟨1, 0⟩)
-  | .Dppx => some (.resolution, ⟨96, 0⟩)
-  | .Dpcm => some (.resolution, ⟨254 / 100, 0⟩)
+/-- a symbolic factor as a pair of naturals (so that the kernel checks tables with `Nat` arithmetic only) -/
+structure SymN where
+  n : Nat
+  d : Nat
+  k : Int
+  deriving DecidableEq, Repr
+
+def SymN.toSym (s : SymN) : Sym := ⟨(s.n : Rat) / (s.d : Rat), s.k⟩
+def SymN.mul (a b : SymN) : SymN := ⟨a.n * b.n, a.d * b.d, a.k + b.k⟩
+def SymN.div (a b : SymN) : SymN := ⟨a.n * b.d, a.d * b.n, a.k - b.k⟩
+/-- numerator and denominator non-zero -/
+def SymN.ok (a : SymN) : Bool := a.n != 0 && a.d != 0
+/-- same value (cross-multiplication) -/
+def SymN.eqv (a b : SymN) : Bool := a.n * b.d == b.n * a.d && a.k == b.k
+
+def symNOf : CExpr → SymN
+  | .lit n d => ⟨n, d, 0⟩
+  | .pi => ⟨1, 1, 1⟩
+  | .mul a b => (symNOf a).mul (symNOf b)
+  | .div a b => (symNOf a).div (symNOf b)
+
+/-- every literal and every divisor of a constant expression is non-zero -/
+def cexprOk : CExpr → Bool
+  | .lit n d => n != 0 && d != 0
+  | .pi => true
+  | .mul a b => cexprOk a && cexprOk b
+  | .div a b => cexprOk a && cexprOk b
+
+def cssSizeN : KU → Option (Dim × SymN)
+  | .In => some (.length, ⟨1, 1, 0⟩)
+  | .Px => some (.length, ⟨1, 96, 0⟩)
+  | .Cm => some (.length, ⟨100, 254, 0⟩)
+  | .Mm => some (.length, ⟨10, 254, 0⟩)
+  | .Q => some (.length, ⟨10, 1016, 0⟩)
+  | .Pt => some (.length, ⟨1, 72, 0⟩)
+  | .Pc => some (.length, ⟨1, 6, 0⟩)
+  | .Turn => some (.angle, ⟨1, 1, 0⟩)
+  | .Deg => some (.angle, ⟨1, 360, 0⟩)
+  | .Grad => some (.angle, ⟨1, 400, 0⟩)
+  | .Rad => some (.angle, ⟨1, 2, -1⟩)
+  | .S => some (.time, ⟨1, 1, 0⟩)
+  | .Ms => some (.time, ⟨1, 1000, 0⟩)
+  | .Khz => some (.frequency, ⟨1, 1, 0⟩)
+  | .Hz => some (.frequency, ⟨1, 1000, 0⟩)
+  | .Dpi => some (.resolution, ⟨1, 1, 0⟩)
+  | .Dppx => some (.resolution, ⟨96, 1, 0⟩)
+  | .Dpcm => some (.resolution, ⟨254, 100, 0⟩)
   | _ => none
+
+def cssSize (u : KU) : Option (Dim × Sym) := (cssSizeN u).map fun p => (p.1, p.2.toSym)
+
+/-- the CSS ratio as a pair of naturals -/
+def cssSpecN (to frm : KU) : Option SymN :=
+  match cssSizeN to, cssSizeN frm with
+  | some (d₁, s₁), some (d₂, s₂) => if d₁ = d₂ then some (s₂.div s₁) else none
+  | _, _ => none
 
 /-- the value in `to` of one `frm`, by the CSS ratios; `none` when not convertible -/
 def cssSpec (to frm : KU) : Option Sym :=
@@ -273,36 +309,50 @@ def minMax (isMax : Bool) (a b : SN) : Except UErr SN :=
   | .error e => .error e
   | .ok o => .ok (if o = some (if isMax then Ordering.gt else .lt) then b else a)
 
-/-- remove the first element of `ds` convertible with `n`; returns the factor and the rest -/
-def removeFirst (n : AU) : List AU → Option (Rat × List AU)
+/-- remove the first element of `ds` convertible with `n`; returns the factor and the rest.
+    Generic in the factor type: instantiated with f64 factors (what grass executes) and with the
+    symbolic factors (what the value-preservation theorem is about). -/
+def removeFirstG {φ : Type} (fac : AU → AU → Option φ) (n : AU) : List AU → Option (φ × List AU)
   | [] => none
   | d :: ds =>
-    match convFactorF d n with
+    match fac d n with
     | some f => some (f, ds)
-    | none => (removeFirst n ds).map fun (f, r) => (f, d :: r)
+    | none => (removeFirstG fac n ds).map fun p => (p.1, d :: p.2)
 
 /-- the two cancellation loops of `multiply_units` (sass_number.rs:90-131) -/
-def cancelLoop : List AU → List AU → Option D → List AU → Option D × List AU × List AU
+def cancelLoopG {α φ : Type} (fac : AU → AU → Option φ) (divBy : α → φ → α) :
+    List AU → List AU → α → List AU → α × List AU × List AU
   | [], ds, num, acc => (num, acc, ds)
   | n :: ns, ds, num, acc =>
-    match removeFirst n ds with
-    | some (f, ds') => cancelLoop ns ds' (num.bind fun x => D.div x (.fin f)) acc
-    | none => cancelLoop ns ds num (acc ++ [n])
+    match removeFirstG fac n ds with
+    | some (f, ds') => cancelLoopG fac divBy ns ds' (divBy num f) acc
+    | none => cancelLoopG fac divBy ns ds num (acc ++ [n])
 
-/-- `multiply_units` (sass_number.rs:56) -/
-def multiplyUnits (selfUnit : U) (num : D) (other : U) : Except UErr SN :=
-  let (nu, du) := selfUnit.parts
-  let (on, od) := other.parts
-  if nu.isEmpty ∧ od.isEmpty ∧ !anyConvertible du on then .ok ⟨num, U.mk on du⟩
-  else if nu.isEmpty ∧ du.isEmpty then .ok ⟨num, U.mk on od⟩
+/-- `multiply_units` (sass_number.rs:56), generic in the number type -/
+def multiplyUnitsG {α φ : Type} (fac : AU → AU → Option φ) (divBy : α → φ → α)
+    (selfUnit : U) (num : α) (other : U) : α × U :=
+  let nu := selfUnit.parts.1
+  let du := selfUnit.parts.2
+  let on := other.parts.1
+  let od := other.parts.2
+  if nu.isEmpty ∧ od.isEmpty ∧ !anyConvertible du on then (num, U.mk on du)
+  else if nu.isEmpty ∧ du.isEmpty then (num, U.mk on od)
   else if !nu.isEmpty ∧ on.isEmpty ∧ (od.isEmpty ∨ (du.isEmpty ∧ !anyConvertible nu od)) then
-    .ok ⟨num, U.mk nu od⟩
+    (num, U.mk nu od)
   else
-    let (num1, newNumer1, otherDenom) := cancelLoop nu od (some num) []
-    let (num2, newNumer2, denom) := cancelLoop on du num1 newNumer1
-    match num2 with
-    | some r => .ok ⟨r, U.mk newNumer2 (denom ++ otherDenom)⟩
-    | none => .error .unsupported
+    let r1 := cancelLoopG fac divBy nu od num []
+    let r2 := cancelLoopG fac divBy on du r1.1 r1.2.1
+    (r2.1, U.mk r2.2.1 (r2.2.2 ++ r1.2.2))
+
+/-- f64 division by a table factor; `none` = result below the normal range (not modelled) -/
+def divByF (x : Option D) (f : Rat) : Option D := x.bind fun v => D.div v (.fin f)
+
+/-- `multiply_units` as executed -/
+def multiplyUnits (selfUnit : U) (num : D) (other : U) : Except UErr SN :=
+  let r := multiplyUnitsG convFactorF divByF selfUnit (some num) other
+  match r.1 with
+  | some v => .ok ⟨v, r.2⟩
+  | none => .error .unsupported
 
 /-- bin_op.rs:348 `mul` -/
 def mulSN (a b : SN) : Except UErr SN :=
@@ -315,6 +365,22 @@ def divSN (a b : SN) : Except UErr SN :=
   match D.div a.num b.num with
   | none => .error .unsupported
   | some p => if b.unit = .none then .ok ⟨p, a.unit⟩ else multiplyUnits a.unit p b.unit.invert
+
+/-! ### the same algebra in exact arithmetic (symbolic factors), for the value-preservation theorem -/
+
+/-- a number with units whose magnitude is exact: rational × power of π -/
+structure SX where
+  val : Sym
+  unit : U
+  deriving DecidableEq, Repr
+
+def mulSX (a b : SX) : SX :=
+  if b.unit = .none then ⟨a.val.mul b.val, a.unit⟩
+  else let r := multiplyUnitsG convFactorS Sym.div a.unit (a.val.mul b.val) b.unit; ⟨r.1, r.2⟩
+
+def divSX (a b : SX) : SX :=
+  if b.unit = .none then ⟨a.val.div b.val, a.unit⟩
+  else let r := multiplyUnitsG convFactorS Sym.div a.unit (a.val.div b.val) b.unit.invert; ⟨r.1, r.2⟩
 
 /-- serializer.rs:543 `visit_number`: complex units are an error unless inspecting -/
 def printSN (inspect compressed : Bool) (n : SN) : Except UErr String :=
